@@ -23,6 +23,8 @@ struct P {
     extra: u8,
     /// stop() races the producers instead of following their join
     race_stop: bool,
+    /// shutdown shape: 0 stop(); 1 close() then stop(); 2 a second thread also calls stop()
+    shutdown: u8,
 }
 
 fn body(p: P) {
@@ -51,18 +53,28 @@ fn body(p: P) {
             let _sub = add_subscriber(&s, Arc::new(ScriptSub::new(7)), 7);
         }));
     }
-    if p.race_stop {
-        stop(&store, 0);
-        for h in hs {
-            let _ = h.join();
-        }
-    } else {
-        for h in hs {
-            let _ = h.join();
-        }
-        stop(&store, 0);
+    if p.shutdown == 2 {
+        let s = store.clone();
+        hs.push(spawn_client("stopper", move || {
+            // the state seen right after *this* stop() returned must be final as well
+            stop(&s, 0);
+            get_state(&s, 98);
+        }));
     }
+    if !p.race_stop {
+        let stopper: Vec<_> = hs.drain(..).collect();
+        for h in stopper {
+            let _ = h.join();
+        }
+    }
+    if p.shutdown == 1 {
+        close(&store, 0);
+    }
+    stop(&store, 0);
     get_state(&store, 99);
+    for h in hs {
+        let _ = h.join();
+    }
 }
 
 pub fn check_fold(r: &ExecResult, reducers: u32) -> Vec<Finding> {
@@ -134,9 +146,10 @@ pub fn check_fold(r: &ExecResult, reducers: u32) -> Vec<Finding> {
         }
     }
     // (iv) state after stop
-    let sr = first_stop_ret(r);
+    // a get_state() issued by a task after a stop() of its own has returned
     for g in rets(r, "get_state") {
-        if g.i > sr && r.timeouts == 0 && *g.st != prev {
+        let own_stop = rets(r, "stop").filter(|s| s.task == g.task).map(|s| s.i).next().unwrap_or(usize::MAX);
+        if g.i > own_stop && r.timeouts == 0 && *g.st != prev {
             f.push(fnd(
                 "fold-final-state",
                 format!("get_state after stop() = {} but the last reduced state is {}", fmt_st(g.st), fmt_st(&prev)),
@@ -150,9 +163,10 @@ pub fn scenarios(tier: Tier) -> Vec<Scenario> {
     let mut v = vec![];
     let mut add = |p: P, bound: u32| {
         let name = format!(
-            "C01/P{}k{}r{}keep{:03b}odd{:03b}eff{}cap{}x{}{}",
+            "C01/P{}k{}r{}keep{:03b}odd{:03b}eff{}cap{}x{}{}{}",
             p.producers, p.k, p.reducers, p.keep, p.keep_odd, p.eff, p.cap, p.extra,
-            if p.race_stop { "race" } else { "join" }
+            if p.race_stop { "race" } else { "join" },
+            ["", "+close", "+2stops"][p.shutdown as usize]
         );
         let pb = p.clone();
         let reducers = p.reducers;
@@ -172,15 +186,17 @@ pub fn scenarios(tier: Tier) -> Vec<Scenario> {
                     for &cap in &[1usize, 16] {
                         for &race in &[false, true] {
                             let keep = if reducers == 2 { 0b01 } else { 0 };
-                            add(P { producers, k, reducers, keep, keep_odd: 0b10 & ((1 << reducers) - 1), eff: EFF_NONE, cap, extra: 0, race_stop: race }, 2);
+                            add(P { producers, k, reducers, keep, keep_odd: 0b10 & ((1 << reducers) - 1), eff: EFF_NONE, cap, extra: 0, race_stop: race, shutdown: 0 }, 2);
                         }
                     }
                 }
             }
-            add(P { producers: 1, k: 2, reducers: 3, keep: 0b010, keep_odd: 0b101, eff: EFF_TASK, cap: 1, extra: 1, race_stop: false }, 2);
-            add(P { producers: 2, k: 1, reducers: 3, keep: 0b010, keep_odd: 0, eff: EFF_TASK, cap: 1, extra: 1, race_stop: false }, 1);
-            add(P { producers: 2, k: 1, reducers: 2, keep: 0b11, keep_odd: 0, eff: EFF_NONE, cap: 2, extra: 2, race_stop: true }, 2);
-            add(P { producers: 1, k: 2, reducers: 1, keep: 1, keep_odd: 1, eff: EFF_ACTION, cap: 2, extra: 1, race_stop: false }, 2);
+            add(P { producers: 1, k: 2, reducers: 3, keep: 0b010, keep_odd: 0b101, eff: EFF_TASK, cap: 1, extra: 1, race_stop: false, shutdown: 0 }, 2);
+            add(P { producers: 2, k: 1, reducers: 3, keep: 0b010, keep_odd: 0, eff: EFF_TASK, cap: 1, extra: 1, race_stop: false, shutdown: 0 }, 1);
+            add(P { producers: 2, k: 1, reducers: 2, keep: 0b11, keep_odd: 0, eff: EFF_NONE, cap: 2, extra: 2, race_stop: true, shutdown: 0 }, 2);
+            add(P { producers: 1, k: 2, reducers: 1, keep: 1, keep_odd: 1, eff: EFF_ACTION, cap: 2, extra: 1, race_stop: false, shutdown: 0 }, 2);
+            add(P { producers: 1, k: 2, reducers: 1, keep: 0, keep_odd: 1, eff: EFF_NONE, cap: 2, extra: 0, race_stop: true, shutdown: 1 }, 2);
+            add(P { producers: 1, k: 2, reducers: 2, keep: 0, keep_odd: 0b11, eff: EFF_NONE, cap: 1, extra: 0, race_stop: true, shutdown: 2 }, 2);
         }
         Tier::Thorough => {
             // small programs to bound 3, every keep mask and chain length
@@ -190,7 +206,7 @@ pub fn scenarios(tier: Tier) -> Vec<Scenario> {
                         for &cap in &[1usize, 16] {
                             for &race in &[false, true] {
                                 for &eff in &[EFF_NONE, EFF_TASK] {
-                                    add(P { producers, k, reducers, keep, keep_odd: (!keep) & ((1 << reducers) - 1), eff, cap, extra: 0, race_stop: race }, 3);
+                                    add(P { producers, k, reducers, keep, keep_odd: (!keep) & ((1 << reducers) - 1), eff, cap, extra: 0, race_stop: race, shutdown: 0 }, 3);
                                 }
                             }
                         }
@@ -203,7 +219,7 @@ pub fn scenarios(tier: Tier) -> Vec<Scenario> {
                     for &extra in &[1u8, 2] {
                         for &race in &[false, true] {
                             for &cap in &[1usize, 2] {
-                                add(P { producers, k, reducers, keep: 0b01, keep_odd: 0b10 & ((1 << reducers) - 1), eff: EFF_NONE, cap, extra, race_stop: race }, 2);
+                                add(P { producers, k, reducers, keep: 0b01, keep_odd: 0b10 & ((1 << reducers) - 1), eff: EFF_NONE, cap, extra, race_stop: race, shutdown: 0 }, 2);
                             }
                         }
                     }
@@ -214,14 +230,21 @@ pub fn scenarios(tier: Tier) -> Vec<Scenario> {
                 for &reducers in &[1u32, 2] {
                     for &cap in &[1usize, 2] {
                         for &race in &[false, true] {
-                            add(P { producers, k, reducers, keep: 0b10 & ((1 << reducers) - 1), keep_odd: 0b01, eff: EFF_NONE, cap, extra: 0, race_stop: race }, 2);
+                            add(P { producers, k, reducers, keep: 0b10 & ((1 << reducers) - 1), keep_odd: 0b01, eff: EFF_NONE, cap, extra: 0, race_stop: race, shutdown: 0 }, 2);
                         }
                     }
                 }
             }
-            add(P { producers: 2, k: 1, reducers: 1, keep: 0, keep_odd: 1, eff: EFF_ACTION, cap: 2, extra: 0, race_stop: false }, 2);
-            add(P { producers: 1, k: 2, reducers: 1, keep: 1, keep_odd: 0, eff: EFF_ACTION, cap: 1, extra: 0, race_stop: true }, 2);
-            add(P { producers: 3, k: 2, reducers: 1, keep: 0, keep_odd: 1, eff: EFF_NONE, cap: 1, extra: 0, race_stop: true }, 1);
+            add(P { producers: 2, k: 1, reducers: 1, keep: 0, keep_odd: 1, eff: EFF_ACTION, cap: 2, extra: 0, race_stop: false, shutdown: 0 }, 2);
+            add(P { producers: 1, k: 2, reducers: 1, keep: 1, keep_odd: 0, eff: EFF_ACTION, cap: 1, extra: 0, race_stop: true, shutdown: 0 }, 2);
+            add(P { producers: 3, k: 2, reducers: 1, keep: 0, keep_odd: 1, eff: EFF_NONE, cap: 1, extra: 0, race_stop: true, shutdown: 0 }, 1);
+            for shutdown in 1..=2u8 {
+                for &(producers, k) in &[(1u32, 2u32), (2, 1)] {
+                    for &race in &[false, true] {
+                        add(P { producers, k, reducers: 2, keep: 0b01, keep_odd: 0b10, eff: EFF_NONE, cap: 1, extra: 0, race_stop: race, shutdown }, 3);
+                    }
+                }
+            }
         }
     }
     v
